@@ -40,3 +40,31 @@ check(
     "Tolerance = 16 x the precision the row is written in (calibrated: empty gap between ratio 15 and 647 on the pinned table) with floor 2e-5; rows with offsets, multi-slash symbols and ambiguous F/C factors are skipped, never alarmed on.",
     "4/C06",
 )
+check(
+    "C07",
+    "runtime monitoring: invariant monitor - every Quantity constructed (enrolled from a probe on Quantity.__init__) and every cache value re-fingerprinted after every step of hostile generated histories; ==/hash partition and cache-soundness oracles per history",
+    "Held on hundreds (thorough: tens of thousands) of 60-80 step histories mixing creation in every form, Scalar/Array/Quantity arithmetic with differing units and categories, conversions, failed operations, copies and pickles on a fresh POSC database; ~0.5 M fingerprint/pair comparisons per quick run.",
+    "Only public getters, hash, repr and the public quantities_cache attribute are read; vandalism through private attributes or caller-kept dicts is out of scope.",
+    "4/C07",
+)
+check(
+    "C08",
+    "runtime monitoring: coherence oracle over the 8 order-operator results per operand pair (ulp-adjacent, physically equal amounts in different units, differently split fractions) + exhaustive pairwise equality sweep over a pool of all nine value classes",
+    "Held for every quantity type x unit pairs (quick 30 per type, thorough all) x adversarial values for Scalar and FractionScalar, agreement with the exact rational order beyond the float error scale, TypeError across types; == / != totality, reflexivity, symmetry, negation and hash consistency on ~3600 ordered pairs per pool, pools re-drawn per seed.",
+    "One-dimensional containers; numpy objects are not used as the foreign operand of ==.",
+    "4/C08",
+)
+check(
+    "C09",
+    "runtime monitoring: reference-model monitor on the ten number-operand operator forms executed on real Scalars/Arrays/FixedArrays (class, quantity and exact value oracle)",
+    "Held for simple, derived and empty quantities x list/tuple/ndarray x lengths 0..4 x 9 python/numpy scalar kinds and float64/int64 ndarrays x ten forms in both operand orders: result class, quantity (reciprocal for k/x, k//x), values equal to the Python/numpy operation exactly.",
+    "float32 operands are compared to 1e-6 (numpy's promotion rule decides the precision); complex numbers and ndarray operands for Scalars are excluded.",
+    "4/C09",
+)
+check(
+    "C10",
+    "runtime monitoring: differential monitor - Array operator results (9 container combinations) against the same operation on the corresponding Scalars, element by element",
+    "Held on generated operand pairs (derived, differing units/categories, CreateDerived leaves) x 5 operators x 9 container combinations x lengths {0,1,2,3,7} incl. mismatched lengths (must raise), raise/no-raise agreement, result quantity and container rule; FromScalars / GetValues(unit) against Scalar.GetValue.",
+    "Scalar operators are the reference (C03/C04 vouch for them); 4 ulp tolerance; one-dimensional non-ragged containers.",
+    "4/C10",
+)
